@@ -128,7 +128,12 @@ Qed.
 
 Theorem core_did_parse_total s : core_did_parse s <> Panic.
 Proof.
-  unfold core_did_parse.
+  unfold core_did_parse. destruct s as [|a [|b [|c [|col rest]]]]; try discriminate; destruct (negb _); try discriminate.
+  destruct (negb _); [discriminate|]. destruct (_ || _); [discriminate|]. destruct (_ || _); discriminate.
+Qed.
+Theorem core_did_parse_tp_total s : core_did_parse_tp s <> Panic.
+Proof.
+  unfold core_did_parse_tp.
   destruct (list_eqb (trim s) s) eqn:T; cbn [negb]; [|discriminate]. apply list_eqb_eq in T.
   destruct (ends_with_pct s) eqn:EP; [discriminate|].
   unfold tp_parse. rewrite T.
